@@ -160,7 +160,11 @@ def gen_value(cls, fname, finfo, key, present: bool):
         return None
     if ann is datetime.datetime:
         base = datetime.datetime(2020 + h % 5, 1 + h % 12, 1 + h % 28, h % 24, h % 60, h % 60, h % 1000000)
-        return base if h % 3 else base.replace(tzinfo=datetime.timezone.utc)
+        if h % 3 == 0:
+            return base.replace(tzinfo=datetime.timezone.utc)
+        if h % 7 == 0:   # an aware datetime with a non-UTC offset
+            return base.replace(tzinfo=datetime.timezone(datetime.timedelta(hours=5, minutes=30)))
+        return base
     if ann is datetime.date:
         return datetime.date(1999 + h % 30, 1 + h % 12, 1 + h % 28)
     if ann is datetime.time:
@@ -640,6 +644,9 @@ def random_world(rng, ctype):
             O.append({"id": mid, "kind": "match", "source": src, "target": tgt})
         O.append({"id": f"ce{n}", "kind": "clip_eval", "annotations": f"ca{n}", "predictions": f"cp{n}", "matches": mm})
         ces.append(f"ce{n}")
+        if rng.random() < 0.2:   # a second evaluation of the same clip sharing annotations, predictions and matches
+            O.append({"id": f"ce{n}b", "kind": "clip_eval", "annotations": f"ca{n}", "predictions": f"cp{n}", "matches": list(mm)})
+            ces.append(f"ce{n}b")
     ks = []
     for n, c in enumerate(clips):
         O.append({"id": f"k{n}", "kind": "task", "clip": c,
